@@ -14,7 +14,7 @@ META = {
     'rule': ('bounded breadth-first exploration of the REAL object: at every distinct reachable state (de-duplicated on the full '
              'snapshot minus the action log, plus the shadow phase) the whole alphabet {add (new / duplicate bib), bar (higher / '
              'equal / lower / below the tied height; first bar also 0 and negative), cleared, failed, passed, retired} x every bib '
-             'is applied, legal or not; plus seeded random walks with 1-4 athletes. distinct_nontrivial = distinct reachable '
+             'is applied, legal or not; plus seeded random walks with 1-4 athletes and seeded random rule-conforming histories (up to 4 athletes, 4+3 heights) with every other call of the alphabet probed on a clone at every step. distinct_nontrivial = distinct reachable '
              'states expanded + distinct (state name, call kind, refusal reason) classes refused without change'),
     'assumptions': ['unspecified (recorded, only atomicity / exception class / invariants / state order judged): a jump-off among '
                     'athletes with no clearance, a pass inside a jump-off, a jump-off bar moved before every participant acted',
@@ -28,7 +28,12 @@ def run_shard(ctx, spec):
     rnd = random.Random(ctx.seed * 911 + spec['i'])
     ex = hj.Explorer(mon, rnd)
     if spec['w'] == 'bfs':
-        ex.bfs(spec['nj'], spec['reg'], spec['jo'], part=spec['i'], nparts=spec['n'], split_depth=spec.get('split', 3))
+        ex.bfs(spec['nj'], spec['reg'], spec['jo'], part=spec['i'], nparts=spec['n'], split_depth=spec.get('split', 3),
+               max_states=spec.get('max_states'))
+    elif spec['w'] == 'probe':
+        for k in range(spec['walks']):
+            ex.walk_probe(rnd.choice([2, 2, 3, 3, 4]), maxlen=70)
+        ctx.count('eval.probed-calls', ex.probed)
     else:
         for k in range(spec['walks']):
             ex.walk(rnd.choice([1, 2, 2, 3, 3, 4]), maxlen=120)
@@ -46,11 +51,15 @@ def shards(tier, seed):
         s = [{'w': 'bfs', 'nj': 2, 'reg': 2, 'jo': 1, 'i': i, 'n': 10} for i in range(10)]
         s += [{'w': 'bfs', 'nj': 1, 'reg': 3, 'jo': 1, 'i': 0, 'n': 1}]
         s += [{'w': 'walk', 'walks': 60, 'i': 100 + i} for i in range(5)]
+        s += [{'w': 'probe', 'walks': 300, 'i': 200 + i} for i in range(16)]
         return s
-    s = [{'w': 'bfs', 'nj': 2, 'reg': 3, 'jo': 2, 'i': i, 'n': 40, 'split': 4} for i in range(40)]
-    s += [{'w': 'bfs', 'nj': 3, 'reg': 2, 'jo': 1, 'i': i, 'n': 40, 'split': 4} for i in range(40)]
+    # (2 athletes, 2+2) is explored completely (374 k distinct states); the deeper / wider spaces are cut per shard
+    s = [{'w': 'bfs', 'nj': 2, 'reg': 2, 'jo': 2, 'i': i, 'n': 32, 'split': 4} for i in range(32)]
+    s += [{'w': 'bfs', 'nj': 2, 'reg': 3, 'jo': 2, 'i': i, 'n': 32, 'split': 5, 'max_states': 120000} for i in range(32)]
+    s += [{'w': 'bfs', 'nj': 3, 'reg': 2, 'jo': 1, 'i': i, 'n': 32, 'split': 5, 'max_states': 120000} for i in range(32)]
     s += [{'w': 'bfs', 'nj': 1, 'reg': 4, 'jo': 1, 'i': 0, 'n': 1}]
     s += [{'w': 'walk', 'walks': 1250, 'i': 100 + i} for i in range(16)]
+    s += [{'w': 'probe', 'walks': 6000, 'i': 200 + i} for i in range(16)]
     return s
 
 
